@@ -40,6 +40,9 @@ pub struct HP {
     /// timer is delivered, the member is forgotten), so that the 8-bit timer token is about to wrap
     #[serde(default)]
     pub warmup_flaps: u32,
+    /// the warm-up epochs are identity changes (reset()) instead of idle flaps (become_disconnected())
+    #[serde(default)]
+    pub warmup_by_renewal: bool,
     /// before the generated history: a member joins and this many probe rounds are played in deadline order,
     /// each Ping answered, so that the 8-bit probe number is about to wrap
     #[serde(default)]
@@ -200,7 +203,7 @@ pub fn gen_hp(seed: u64, profile: &str, tier: Tier) -> HP {
     if profile == "C08" {
         setup.acc_twin = s.chance(1, 2);
     }
-    let mut hp = HP { profile: profile.to_string(), setup, addrs: s.range(3, 6) as u16, steps, timer_mode, weights, wild_config: wild, warmup_flaps: 0, warmup_probe_rounds: 0 };
+    let mut hp = HP { profile: profile.to_string(), setup, addrs: s.range(3, 6) as u16, steps, timer_mode, weights, wild_config: wild, warmup_flaps: 0, warmup_by_renewal: false, warmup_probe_rounds: 0 };
     // injected fault of the no-panic check only: the instance's codec fails at random calls
     if wild && hp.setup.codec.is_wire() && !hp.setup.policy.var_ids && s.chance(1, 3) {
         hp.setup.codec = CodecKind::WireFlaky;
@@ -209,6 +212,7 @@ pub fn gen_hp(seed: u64, profile: &str, tier: Tier) -> HP {
     let odds = if profile == "C13" || profile == "C11" { 10 } else { 40 };
     if s.chance(1, odds) {
         hp.warmup_flaps = 246 + s.below(14) as u32;
+        hp.warmup_by_renewal = seed % 2 == 1;
     }
     // ... or with the probe number about to wrap around
     let odds = if profile == "C12" { 10 } else { 40 };
@@ -654,6 +658,11 @@ pub fn run_hist(hp: &HP, seed: u64, steps: Option<&[Step]>) -> HistRun {
             None if warm_left > 0 && warm_budget == 0 => {
                 warm_left = 0;
                 continue;
+            }
+            None if warm_left > 0 && hp.warmup_by_renewal => {
+                warm_left -= 1;
+                let own = d.id();
+                Step::In(Input::ChangeIdentity(SimId::new(own.addr, own.gen + 1)))
             }
             None if warm_left > 0 => match { warm_budget -= 1; warm_phase } {
                 0 => {
